@@ -25,12 +25,12 @@ type Analysis struct {
 	Gate1, Gate2, Gate3 *GateInfo
 	ListLang            map[*ssa.Global]*SpecLang // T5: which language a list variable holds
 	ListOfLang          map[string]*ssa.Global
-	EncList             map[string]*ssa.Global    // T2: list the encoder indexes per language
-	MapOf               map[string]*ssa.Global    // T3: lookup map per language name
-	MapList             map[*ssa.Global]*ssa.Global // T3: list a lookup map is the inverse of
+	EncList             map[string]*ssa.Global        // T2: list the encoder indexes per language
+	MapOf               map[string]*ssa.Global        // T3: lookup map per language name
+	MapList             map[*ssa.Global]*ssa.Global   // T3: list a lookup map is the inverse of
 	OnceFn              map[*ssa.Global]*ssa.Function // T3: map -> its builder
-	Source              *ssa.Global               // F3: the randomness source variable
-	SwapStores          map[ssa.Instruction]bool  // F3b: stores accepted as explicit swaps of the source
+	Source              *ssa.Global                   // F3: the randomness source variable
+	SwapStores          map[ssa.Instruction]bool      // F3b: stores accepted as explicit swaps of the source
 	evals               map[string]*Eval
 	Contexts            int
 }
@@ -379,7 +379,6 @@ func calleeName(c ssa.CallInstruction) string {
 	}
 	return "dynamic"
 }
-
 
 // rejectCtxs builds the contexts for the sizes a gate rejects: one per cell of the
 // complement of the accepted sizes (an interval, possibly with a residue class), each with
